@@ -73,7 +73,7 @@ class C18(PropBase):
             yield dict(kind='compact', values=s[::-1] if m % 2 else s)
 
     def n_random(self, tier):
-        return 2500 if tier == 'quick' else 40000
+        return 2500 if tier == 'quick' else 200000
 
     def random_cases(self, rnd, n):
         for i in range(n):
